@@ -12,8 +12,10 @@ def results(paths):
             m = re.match(r"\[(\w+)/mutant(\d+)\] RESULT (\w+) \S+ exit=(\d+) violations=(\d+) :: (.*)", l)
             if m: res[(m.group(1), int(m.group(2)), m.group(3))] = (int(m.group(4)), int(m.group(5)), m.group(6).strip())
     return res
-lab = results(sum([sorted(glob.glob(SRC + "/queue%s?.txt.log" % q)) for q in ["", "B", "C", "D", "E", "F", "G"]], []) + sorted(glob.glob("/tmp/q/w3b_?.log")) + sorted(glob.glob("/tmp/q/w4b_?.log")) + sorted(glob.glob("/tmp/q/w5b_?.log")))
-lab_first = results(sorted(glob.glob("/tmp/q/w3_?.log")) + sorted(glob.glob("/tmp/q/w4_?.log")) + sorted(glob.glob("/tmp/q/w5_?.log")))   # wave 3: the run BEFORE the checks were strengthened
+_old = sum([sorted(glob.glob(SRC + "/queue%s?.txt.log" % q)) for q in ["", "B", "C", "D", "E", "F", "G"]], [])
+_w = sorted(glob.glob("/tmp/q/w*_?.log"), key=os.path.getmtime)
+lab = results(_old + _w)                    # the latest run of every (change, check) wins
+lab_first = results(list(reversed(_w)))     # the earliest run (before the checks were strengthened)
 conf = {}
 for p in glob.glob(SRC + "/confirm*_*.log") + glob.glob(SRC + "/confirm_*.log") + glob.glob("/tmp/q/w?_confirm.log"):
     for l in open(p):
@@ -45,6 +47,7 @@ for d in sorted(glob.glob(SRC + "/C??/mutant?")) + sorted(glob.glob(SRC + "/C??b
     checks = {c_: {"exit": r[0], "violation_lines": r[1], "first_line": r[2][:300]} for (p_, k_, c_), r in lab.items() if p_ == src_pid and k_ == k}
     meta["property"] = pid
     first = {c_: {"exit": r[0], "violation_lines": r[1], "first_line": r[2][:300]} for (p_, k_, c_), r in lab_first.items() if p_ == src_pid and k_ == k}
+    first = {c_: v for c_, v in first.items() if checks.get(c_) != v}
     if first: meta["checks_in_lab_before_strengthening"] = first
     meta["confirmed_by_coordinator"] = {
         "how": "tools/confirm_slot.sh in a scratch worktree of /repo: patch applied, `cargo test --workspace --no-fail-fast --offline` (%s), demonstration with the patch (exit %s = fails) and without it (exit %s = passes)" % (c if c else ("77 passed 0 failed (agent log)", "101", "0")),
